@@ -363,6 +363,13 @@ class ExprModel:
                 if isinstance(o, AObj) and isinstance(a, str):
                     return a in o.__dict__ or repo.lookup_method(o._cls_, a) is not None or repo.lookup_class_attr(o._cls_, a) is not None
                 return NotImplemented
+            if isinstance(e.func, ast.Attribute) and e.func.attr == "__new__" and len(e.args) == 1 and not e.keywords and head not in f.env and f.mod is not None:
+                try:
+                    k = repo.resolve_expr(f.mod, e.args[0], f.cls)
+                except Exception:
+                    k = None
+                if isinstance(k, ClassInfo):
+                    return AObj(k, self.ctx)  # an instance made without running the constructor
             if name == "issubclass" and len(e.args) == 2 and "issubclass" not in f.env:
                 k, base = f.fold(e.args[0]), f.fold(e.args[1])
                 if isinstance(k, TypeVal) and isinstance(base, ClassInfo):
